@@ -19,6 +19,6 @@ CHECK = {
     ],
     "opts": {"unwind": 7, "substitute": SUB, "go_inline": True},
     "stop": list(HSUB.keys()) + list(PSUB.keys()),
-    "explanation": "router.dispatchToRoutees/routeByStrategy executed symbolically for round-robin (arbitrary uint32 counter, two consecutive messages; fresh router, 5 messages), random and fan-out; ReceiveContext.Tell / PID.Tell are substituted by recorders.",
-    "bounds": {"routees": "1..4", "counter": "any uint32", "messages": "2 from an arbitrary counter; 5 from a fresh router"},
+    "explanation": "router.dispatchToRoutees/routeByStrategy executed symbolically for round-robin (arbitrary uint32 counter, two consecutive messages; fresh router, 5 messages), random and fan-out; ReceiveContext.Tell / PID.Tell are substituted by recorders. vC21_rrPool runs handleBroadcast -> availableRoutees -> dispatchToRoutees three times over a 3-routee Go map whose iteration order the solver chooses anew for every message (engine opt map_order=dihedral: all 6 orders): the three messages must reach three different routees. vC21_hashRing runs consistentHashRing.set/lookup (slices.Sort, sort.Search and the unsafe string view substituted by harness equivalents) for 3 members x 2 virtual nodes placed by a harness hasher at one of 3 fixed layouts (incl. 0, 2^63 and the largest uint64) with ARBITRARY 64-bit key hashes: keys map to a member, equal keys/hashes to the same member, and rebuilding the ring without one member moves only the keys that member owned. vC21_hashRouter runs rebuildHashRing + routeByConsistentHash through dispatchToRoutees (one routee possibly stopped).",
+    "bounds": {"routees": "1..4 (3 for the pool/ring entries)", "counter": "any uint32", "messages": "2 from an arbitrary counter; 5 from a fresh router; 3 through the pool", "ring": "3 members x 2 virtual nodes, 3 fixed virtual-node layouts, key hashes any uint64; hash collisions between virtual nodes and the default hasher are outside the claim"},
 }
